@@ -277,10 +277,16 @@ func (fc *FnCtx) havocForCall(st *State, fn *types.Func, name string) []string {
 		fmt.Fprintf(os.Stderr, "FRAME %s: call %s at %s havocs %v\n", fc.name, name, fc.posStr(fc.curPos), ks)
 	}
 	touched := fc.invsTouchedBy(willHavoc)
+	// a module callee in another package that cannot reach this package (it does not import it, directly or indirectly)
+	// neither relies on this package's invariants nor re-establishes them: the invariant is neither demanded
+	// before the call nor assumed after it; what is known afterwards is the callee's contract
+	if fn != nil && fn.Pkg() != nil && inModule(fn.Pkg()) && fn.Pkg().Path() != fc.contract.PkgPath && !fc.pkgReaches(fn.Pkg().Path(), fc.contract.PkgPath) {
+		touched = nil
+	}
 	if len(touched) > 0 && fc.inlineDepth == 0 {
 		fc.invCallOrd++
 		for i, inv := range touched {
-			fc.assert(st, fmt.Sprintf("inv-global#%s@call#%d", clauseLabel(inv, i), fc.invCallOrd), "inv-global", fc.invTerm(st, inv), fc.curPos, "invariant "+inv.Src+"   before call "+name)
+			fc.assertInv(st, inv, fmt.Sprintf("inv-global#%s@call#%d", clauseLabel(inv, i), fc.invCallOrd), fc.curPos, "invariant "+inv.Src+"   before call "+name)
 		}
 	}
 	defer func() {
@@ -373,6 +379,21 @@ func (fc *FnCtx) contractCall(st *State, e *ast.CallExpr, fn *types.Func, sig *t
 		}
 		fc.assert(st, fmt.Sprintf("pre-call-%s#%d/%s", ctext, ord, label), "pre-call", t, e.Pos(), "requires "+r.Src)
 	}
+	// the caller package's own trusted additions to this contract (its ghost vocabulary, its parameter names)
+	var xce *cenv
+	var xenv map[string]Term
+	if x := c.MergedFrom; x != nil {
+		fc.trustedUsed[x.Key+" (additions written in "+x.PkgPath[strings.LastIndex(x.PkgPath, "/")+1:]+")"] = true
+		xenv = fc.calleeEnv(fn, sig, x, recv, hasRecv, args)
+		xce = &cenv{fc: fc, pkgPath: x.PkgPath, pkg: fc.prog.Pkgs[x.PkgPath], names: xenv, st: st, old: pre, scopePos: token.NoPos, fnObj: fn}
+		for i, r := range x.Requires {
+			label := r.Label
+			if label == "" {
+				label = fmt.Sprintf("x%d", i+1)
+			}
+			fc.assert(st, fmt.Sprintf("pre-call-%s#%d/%s", ctext, ord, label), "pre-call", xce.boolExpr(r.Expr), e.Pos(), "requires "+r.Src)
+		}
+	}
 	// a callee under contract in this package assumes the package invariants on entry and re-establishes them
 	// at every return (they are obligations of its own verification)
 	var calleeInvs []*Clause
@@ -422,6 +443,26 @@ func (fc *FnCtx) contractCall(st *State, e *ast.CallExpr, fn *types.Func, sig *t
 	for _, en := range c.Ensures {
 		t := ce.boolExpr(en.Expr)
 		fc.assume(st, t)
+	}
+	if x := c.MergedFrom; x != nil {
+		xnames := x.ResultNames
+		if xnames == nil {
+			xnames = defaultResultNames(sig)
+		}
+		for i, r := range results {
+			if i < len(xnames) && xnames[i] != "" && xnames[i] != "_" {
+				xenv[xnames[i]] = r
+			}
+		}
+		if len(results) > 0 {
+			if _, ok := xenv["result"]; !ok {
+				xenv["result"] = results[0]
+			}
+		}
+		xce.st = st
+		for _, en := range x.Ensures {
+			fc.assume(st, xce.boolExpr(en.Expr))
+		}
 	}
 	return results
 }
@@ -879,4 +920,30 @@ func nonRetainingCallee(fn *types.Func) bool {
 		return fn.Name() == "Scan"
 	}
 	return false
+}
+
+// pkgReaches: package from imports package to, directly or through module packages.
+func (fc *FnCtx) pkgReaches(from, to string) bool {
+	seen := map[string]bool{}
+	var walk func(p string) bool
+	walk = func(p string) bool {
+		if p == to {
+			return true
+		}
+		if seen[p] {
+			return false
+		}
+		seen[p] = true
+		pk := fc.prog.Pkgs[p]
+		if pk == nil || !strings.HasPrefix(p, modRoot) {
+			return false
+		}
+		for ip := range pk.Imports {
+			if strings.HasPrefix(ip, modRoot) && walk(ip) {
+				return true
+			}
+		}
+		return false
+	}
+	return walk(from)
 }
